@@ -44,7 +44,7 @@ pub fn msg_lens(thorough: bool) -> Vec<usize> {
     v
 }
 
-fn local_nonce_len(be: Be) -> usize {
+pub fn local_nonce_len(be: Be) -> usize {
     if be == Be::V2 { 24 } else { 32 }
 }
 
@@ -56,7 +56,7 @@ fn seal_local(be: Be, key: &[u8], nonce: &[u8], msg: &[u8], f: &[u8], a: &[u8]) 
     })
 }
 
-fn encrypt_own(be: Be, key: &[u8], msg: &[u8], f: &[u8], a: &[u8]) -> Option<String> {
+pub fn encrypt_own(be: Be, key: &[u8], msg: &[u8], f: &[u8], a: &[u8]) -> Option<String> {
     with_v!(be, V => {
         let k = key_of::<V, Local>(key).ok()?;
         let t = UnsealedToken::<V, Local, Raw>::new(Raw(msg.to_vec())).with_footer(f.to_vec()).encrypt_with_aad(&k, a).ok()?;
@@ -64,14 +64,25 @@ fn encrypt_own(be: Be, key: &[u8], msg: &[u8], f: &[u8], a: &[u8]) -> Option<Str
     })
 }
 
+/// secret keys for the streams: RSA keys come from a fixed pool that covers every PKCS#1 DER length the key generator
+/// produces (sign bytes of d, dP, dQ, qInv); the other back ends use the library's key generation
 pub fn gen_secret(be: Be) -> Vec<u8> {
+    if be == Be::V1 {
+        use std::sync::atomic::{AtomicUsize, Ordering};
+        static NEXT: AtomicUsize = AtomicUsize::new(0);
+        let i = NEXT.fetch_add(1, Ordering::Relaxed);
+        return crate::util::unhex(crate::rsa_pool::POOL[i % crate::rsa_pool::POOL.len()]).expect("pool hex");
+    }
+    gen_secret_random(be)
+}
+pub fn gen_secret_random(be: Be) -> Vec<u8> {
     with_v!(be, V => Key::<V, Secret>::random().expect("keygen").expose_key().as_raw_bytes().to_vec())
 }
 pub fn public_of(be: Be, sk: &[u8]) -> Vec<u8> {
     with_v!(be, V => key_of::<V, Secret>(sk).expect("sk").public_key().expose_key().as_raw_bytes().to_vec())
 }
 
-fn sign_own(be: Be, sk: &[u8], msg: &[u8], f: &[u8], a: &[u8]) -> Option<String> {
+pub fn sign_own(be: Be, sk: &[u8], msg: &[u8], f: &[u8], a: &[u8]) -> Option<String> {
     with_v!(be, V => {
         let k = key_of::<V, Secret>(sk).ok()?;
         let t = UnsealedToken::<V, Public, Raw>::new(Raw(msg.to_vec())).with_footer(f.to_vec()).sign_with_aad(&k, a).ok()?;
@@ -403,7 +414,10 @@ pub fn gen_c03_public(out: &mut impl Write, r: &mut Rng, thorough: bool) {
 pub fn gen_c03(out: &mut impl Write, seed: u64, thorough: bool) {
     let mut r = Rng::new(seed ^ 0xC03);
     gen_c03_public(out, &mut r, thorough);
-    let lens: Vec<usize> = if thorough { (0..=130).chain([255, 256, 1024, 4096, 65536]).collect() } else { vec![0, 1, 15, 16, 17, 32, 33, 64, 65, 100, 129, 1024] };
+    // lengths around the block sizes of the primitives and around typical buffer / chunk sizes (a chunked keystream or MAC must
+    // continue, not restart, at 4 KiB / 8 KiB / 16 KiB / 64 KiB boundaries)
+    let big = [4095usize, 4096, 4097, 8191, 8192, 8193, 16385, 32769, 65535, 65536, 65537];
+    let lens: Vec<usize> = if thorough { (0..=130).chain([255, 256, 1024, 2048, 131073, 1 << 20]).chain(big).collect() } else { [0, 1, 15, 16, 17, 32, 33, 64, 65, 100, 129, 1024].into_iter().chain(big).collect() };
     for be in ALL_BE {
         let nl = local_nonce_len(be);
         for (i, &len) in lens.iter().enumerate() {
@@ -416,7 +430,7 @@ pub fn gen_c03(out: &mut impl Write, seed: u64, thorough: bool) {
                 for b in n.iter_mut().skip(nl - 8) { *b = 0xff; }
                 n
             }];
-            for n in &nonces {
+            for n in nonces.iter().take(if len > 1024 { 1 } else { 4 }) {
                 // exact token for an injected nonce: implementation vs implementation model
                 writeln!(out, "loc.seal {} {} {} {} {} {}", be.name(), hex(&key), hex(n), hex(&msg), hex(&f), hex(&a)).unwrap();
                 // specification-built token (128-bit counter, spec KDFs): must be accepted with the same claims
